@@ -215,8 +215,10 @@ impl EcdhInfo {
         let (amount, blinding_factor) = match self {
             // ecdhDecode in rctOps.cpp else
             EcdhInfo::Standard { mask, amount } => {
-                let shared_sec1 = hash::Hash::new(shared_key.as_bytes()).to_bytes();
-                let shared_sec2 = hash::Hash::new(shared_sec1).to_bytes();
+                // ecdhDecode: sharedSec1 = hash_to_scalar(sharedSec), sharedSec2 = hash_to_scalar(sharedSec1),
+                // i.e. the second hash is taken over the *reduced* first scalar
+                let shared_sec1 = hash::Hash::hash_to_scalar(shared_key.as_bytes()).to_bytes();
+                let shared_sec2 = hash::Hash::hash_to_scalar(shared_sec1).to_bytes();
                 let mask_scalar = Scalar::from_bytes_mod_order(mask.key)
                     - Scalar::from_bytes_mod_order(shared_sec1);
 
